@@ -668,3 +668,10 @@ def after_pack(raw, fn):
         if isinstance(e, (KeyboardInterrupt, SystemExit)):
             raise
         return {"exc": family(e), "late": 1, "octets": octs(raw)}
+
+
+def rxbuf(raw, sfx=()):
+    """The buffer handed to a decoder: bytes or bytearray (receive buffers, e.g. what the stream parser returns, are
+    bytearrays), chosen deterministically from the content so that both types are exercised on every grid."""
+    b = bytes(raw) + bytes(sfx)
+    return bytearray(b) if (len(b) + (b[-1] if b else 0)) % 2 else b
